@@ -293,6 +293,44 @@ Proof.
   rewrite total_concat. reflexivity.
 Qed.
 
+(* ---- one tracker over a history of evaluations ---- *)
+Lemma exhausted_pinned_proof : forall costs t pre t' ok, remaining t = 0 -> Forall nonneg costs ->
+  watch track t costs = (pre, t', ok) -> t' = t /\ ok = (total costs =? 0).
+Proof.
+  induction costs as [|c costs IH]; intros t pre t' ok R Hn W; cbn [watch] in W.
+  - inversion W; subst. split; reflexivity.
+  - inversion Hn as [|x l Hc Hn']; subst. unfold nonneg in Hc. rewrite total_cons.
+    destruct (Z.eq_dec c 0) as [->|Hc0].
+    + rewrite track_zero in W. destruct (watch track t costs) as [[p t2] ok2] eqn:W2. inversion W; subst.
+      destruct (IH t p t' ok R Hn' W2) as [-> ->]. split; reflexivity.
+    + rewrite track_pos in W by lia. rewrite R in W. unfold sat_sub in W.
+      destruct (0 <? c) eqn:E; [|lia]. cbn [Z.eqb negb] in W. inversion W; subst.
+      pose proof (total_nonneg _ Hn'). split.
+      * destruct t as [i r]; cbn [initial remaining] in *. subst. reflexivity.
+      * destruct (c + total costs =? 0) eqn:E2; [lia|reflexivity].
+Qed.
+
+Lemma remaining_decreases : forall costs t pre t' ok, 0 <= remaining t -> Forall nonneg costs ->
+  watch track t costs = (pre, t', ok) -> initial t' = initial t /\ 0 <= remaining t' <= remaining t.
+Proof.
+  induction costs as [|c costs IH]; intros t pre t' ok R Hn W; cbn [watch] in W.
+  - inversion W; subst. lia.
+  - inversion Hn as [|x l Hc Hn']; subst. unfold nonneg in Hc.
+    assert (T : initial (fst (track t c)) = initial t /\ 0 <= remaining (fst (track t c)) <= remaining t).
+    { unfold track, sat_sub. brk; cbn [fst initial remaining]; lia. }
+    destruct (track t c) as [t1 ok1]. cbn [fst] in T. destruct ok1.
+    + destruct (watch track t1 costs) as [[p t2] ok2] eqn:W2. inversion W; subst.
+      destruct (IH t1 p t' ok ltac:(lia) Hn' W2). lia.
+    + inversion W; subst. exact T.
+Qed.
+
+Lemma run_ops_reachable B : forall ops t, Forall (Forall nonneg) ops -> reachable B t -> reachable B (run_ops t ops).
+Proof.
+  induction ops as [|costs ops IH]; intros t Hn Hr; cbn [run_ops]; [exact Hr|].
+  inversion Hn; subst. destruct (watch track t costs) as [[p t1] ok1] eqn:W.
+  apply IH; [assumption|]. exact (watch_reachable B costs t p t1 ok1 H1 Hr W).
+Qed.
+
 (* ---- the real cost function ---- *)
 Lemma fuel_table_nonneg : forallb (fun e => 0 <=? snd e) fuel_table = true.
 Proof. vm_compute. reflexivity. Qed.
